@@ -311,6 +311,7 @@ class ExprMixin:
         p = vp(obj.t)
         if attr == "parent": return V(Val.PathV(p_parent(p)), "Path")
         if attr == "name": return V(StrV(p_name(p)), "str")
+        if attr == "parents": return V(obj.t, "pathparents")
         raise Unsupported(f"Path.{attr}")
 
     # ------------------------------------------------------------------ operators
@@ -529,6 +530,14 @@ class ExprMixin:
 
     def subscript(self, st, c, k, lineno):
         ty = base_type(c.ty)
+        if ty == "pathparents":
+            kk = z3.simplify(vi(k.t))
+            if not z3.is_int_value(kk):
+                raise Unsupported("Path.parents with a computed index")
+            p = vp(c.t)
+            for _ in range(kk.as_long() + 1):
+                p = p_parent(p)
+            return [Res(st, V(Val.PathV(p), "Path"))]
         if ty in ("list", "tuple"):
             self.need_int(st, [k], lineno)
             seq = self.elems(st, c)
